@@ -15,14 +15,16 @@ F = CFGF
 U = [Opt('flt', b'z', 0, 0.5), Opt('str', b'w', 0, None)]
 T = [Opt('int', b'p', 0, 1), Opt('bool', b'q', 0, 0), Opt('sec', b'u', 0, None, U), Opt('strl', b'y', 0, b'{a, "b c"}')]
 S = [Opt('int', b'x', 0, 5), Opt('strl', b'y', 0, None), Opt('sec', b't', F['MULTI'] | F['TITLE'], None, T), Opt('str', b'b', 0, b'in-s')]
-M = [Opt('int', b'k', 0, 0), Opt('fltl', b'x', 0, b'{1.5}')]
+M = [Opt('int', b'k', 0, 0), Opt('fltl', b'x', 0, b'{1.5}'), Opt('ptr', b'pp', 0, cbs=('parse:0',))]
 ROOT = [Opt('int', b'a', 0, 1), Opt('str', b'b', 0, b'dq"bs\\'), Opt('intl', b'l', 0, b'{1,2}'), Opt('sec', b's', 0, None, S),
         Opt('sec', b'm', F['MULTI'], None, M), Opt('bool', b'q', F['NODEFAULT']), Opt('str', b'n', 0, None),
-        Opt('func', b'fn', func='user:0'), Opt('flt', b'x', F['NODEFAULT'])]
-ALLNAMES = [b'a', b'b', b'l', b's', b'm', b'q', b'n', b'x', b'y', b't', b'p', b'u', b'z', b'w', b'k', b'fn']
+        Opt('func', b'fn', func='user:0'), Opt('flt', b'x', F['NODEFAULT']),
+        # user-defined pointer values have no built-in text: `name=` (a print callback supplies the text), `# name=` when unset
+        Opt('ptr', b'pp', 0, cbs=('parse:0',)), Opt('ptr', b'pu', 0, cbs=('parse:0',)), Opt('ptrl', b'ppl', 0, None, cbs=('parse:0',))]
+ALLNAMES = [b'a', b'b', b'l', b's', b'm', b'q', b'n', b'x', b'y', b't', b'p', b'u', b'z', b'w', b'k', b'fn', b'pp', b'ppl']
 
 TEXTS = [
-    b's { x = 7 t one { p = 2 u { z = 2.5 } } t two { q = true y += {c} } }\nm { k = 1 } m { k = 2 x = {} }\n',
+    b's { x = 7 t one { p = 2 u { z = 2.5 } } t two { q = true y += {c} } }\nm { k = 1 pp = v1 } m { k = 2 x = {} }\npp = v2\nppl = {v3, v4}\n',
     b'l = {}\ns { t "o ne" { } }\nq = yes\n',
     b'',
 ]
@@ -135,7 +137,7 @@ def generate(rng, tier):
                 if r.chance(1, 2):
                     filt.append((path, None, len(lines)))
                     lines.append('unfilter 0 %s' % hx(path))
-        pfs = [p for p in (b'a', b'l', b's|x', b's|y', b'fn', b'm=0|x', b'q', b'n') if r.chance(1, 5)]
+        pfs = [p for p in (b'a', b'l', b's|x', b's|y', b'fn', b'm=0|x', b'q', b'n', b'pp', b'pu', b'ppl', b'm=0|pp') if r.chance(1, 5)]
         for p in pfs:
             lines.append('printfunc 0 %s 0' % hx(p))
         di = len(lines)
